@@ -30,17 +30,24 @@ def steps(rng, rs0, nrs, t0):
 
 
 def make_script(rng, n, fmt, unif, with_base):
-    base = None
+    base = base0 = None
     if with_base:
-        bs = steps(rng, 1, rng.randint(2, 5), 0)
-        k = rng.randint(1, max(s["rs"] for s in bs))
+        rs0, t0 = 1, 0
+        if rng.random() < 0.4:
+            # a chain of three: the base run continues an earlier run, which was itself run beyond that restart step
+            b0 = steps(rng, 1, rng.randint(2, 4), 0)
+            k0 = rng.randint(1, max(s["rs"] for s in b0))
+            base0 = {"n": n, "steps": b0, "rstep": k0}
+            rs0, t0 = k0 + 1, max(s["t"] for s in b0 if s["rs"] <= k0)
+        bs = steps(rng, rs0, rng.randint(2, 5), t0)
+        k = rng.randint(rs0, max(s["rs"] for s in bs))
         tk = max(s["t"] for s in bs if s["rs"] <= k)
         # the base run may have fewer / more vectors than the continuing run
         base = {"n": rng.choice([n, n, max(1, n - 1), n + 1]), "steps": bs, "rstep": k}
         own = steps(rng, k + 1, rng.randint(1, 3), tk)
     else:
         own = steps(rng, rng.choice([0, 1, 1]), rng.randint(1, 4), 0)
-    return {"fmt": fmt, "unif": unif, "n": n, "steps": own, "base": base}
+    return {"fmt": fmt, "unif": unif, "n": n, "steps": own, "base": base, "base0": base0}
 
 
 def run(opts):
